@@ -136,11 +136,12 @@ strvector *StrVectorExtend(strvector *s1, strvector *s2)
   size_t i;
   strvector *sext;
   NewStrVector(&sext, (*s1).size+(*s2).size);
+  /* deep copy: the extended vector must not share strings with s1 and s2 */
   for(i = 0; i < (*s1).size; i++) {
-      (*sext).data[i] = (*s1).data[i];
+      setStr(sext, i, (*s1).data[i]);
   }
   for(i = 0; i < (*s2).size; i++) {
-      (*sext).data[i+(*s1).size] = (*s2).data[i];
+      setStr(sext, i+(*s1).size, (*s2).data[i]);
   }
   return sext;
 }
